@@ -126,6 +126,20 @@ func gen(tier string) []proto.Item {
 			items = append(items, it)
 		}
 	}
+	// whatever random numbers the process draws while the runs are set up (every triple over {0..3} for the first three
+	// draws): the identifiers of runs that are alive together stay distinct, each run's hops stay its solo hops
+	for _, st := range sets() {
+		if st.name != "icmp4+icmp4+icmp4/same-target" {
+			continue
+		}
+		for code := 0; code < 64; code++ {
+			it := proto.Item{Scn: st.scns[0], Class: fmt.Sprintf("%s/base-plain/random-draws-%d-%d-%d", st.name, code%4, code/4%4, code/16)}
+			it.Scn.IPIDBase, it.Scn.EchoBase = 3000, 300
+			it.Scn.Rand = []uint32{uint32(code % 4), uint32(code / 4 % 4), uint32(code / 16)}
+			it.Also = append([]proto.Scn{}, st.scns[1:]...)
+			items = append(items, it)
+		}
+	}
 	return items
 }
 
